@@ -173,12 +173,39 @@ def run(tier, seed):
             obligations.append(ob)
     obligations.append(last_applied_obligation(prog))
     from lib import native
+    import os
+    from .common import native_scenarios
+    native_ok = not os.environ.get("VERIF_NO_NATIVE")
+    NODE_VARIANTS = ("ConfigSet", "McpReq")   # request kinds the node-level scenario three_paths_same_state commits
+    node_done = None
     for ob in obligations:
         if ob.get("verdict") == "violation":
+            variant = (ob.get("counterexample") or {}).get("variant") or ob["harness"].replace("s07_", "")
+            if native_ok and (variant in NODE_VARIANTS or ob["harness"] == "s07_last_applied"):
+                if node_done is None:
+                    node_done = native_scenarios("C07", "violation", ["three_paths_same_state"], ob["message"], {"obligation": ob["harness"], "model": ob.get("counterexample")})
+                rr = node_done
+                ob["replay_path"] = rr["path"]
+                ob["replay"] = {"path": rr["path"], "outcome": rr["outcome"], "message": rr["message"]}
+                if rr["outcome"] == "reproduced":
+                    ob["message"] = "%s [real nodes: %s]" % (ob["message"], rr["message"][:300])
+                    continue
+                # the three real paths give the same served state for the scenario's requests: the difference in the emitted messages is
+                # not observable there (e.g. a field the components ignore) - reported as model-only, not dropped
+                ob["replay"]["note"] = "emission difference not observable in the node scenario (config value, MCP lookups)"
+                continue
             path = native.write_replay("C07", "c07", "model", [], {"engine": "smt", "mode": "model-only", "obligation": ob["harness"],
                                                                    "message": ob["message"], "model": ob.get("counterexample")})
             ob["replay_path"] = path
-            ob["replay"] = {"path": path, "outcome": "model-only", "message": "dispatch functions evaluated from the source; the seven actors cannot be started without a data directory"}
+            ob["replay"] = {"path": path, "outcome": "model-only", "message": "emission sequences of the three dispatch functions (no node-level scenario commits this request kind)"}
+    if native_ok and not any(o.get("verdict") == "violation" for o in obligations):
+        # node-level validation: the same committed requests through leader apply, follower replication and start-up replay on real
+        # nodes (real store actors + state-machine components) serve the same state
+        val = native_scenarios("C07", "validate", ["three_paths_same_state"])
+        info["translator_validation_node"] = {"outcome": val["outcome"], "message": val["message"], "path": val["path"]}
+        if val["outcome"] != "passed":
+            obligations.append({"engine": "smt", "harness": "s07_node_validation", "verdict": "inconclusive", "queries": 0, "solver_s": 0,
+                                "message": "the dispatch obligations are discharged but real nodes do not serve the same state through the three paths: %s" % val["message"]})
     info["wall_s"] = round(time.time() - t0, 1)
     return {"obligations": obligations, "info": info}
 
